@@ -360,7 +360,16 @@ def receiver_local(body, t):
                     elif r["k"] == "use":
                         src = r["o"].get("move") or r["o"].get("copy")
         if src is None:
-            return l
+            # result of a deref-like call (`Deref::deref`, `as_slice`, `iter`, `borrow`): continue with its receiver
+            for blk in body.blocks:
+                t2 = blk["term"]["t"]
+                if t2["k"] == "call" and not t2["dest"]["p"] and t2["dest"]["l"] == l and t2["args"]:
+                    g2 = (M.callee_of(t2) or ("",))[0]
+                    if any(g2.endswith(x) for x in ("::deref", "::deref_mut", "::as_slice", "::as_mut_slice", "::iter", "::iter_mut", "::borrow",
+                                                    "::borrow_mut", "::into_iter", "::as_ref", "::as_mut")):
+                        src = t2["args"][0].get("move") or t2["args"][0].get("copy")
+            if src is None:
+                return l
         if body.local_names.get(src["l"]) is not None and not [e for e in src["p"] if e["k"] != "deref"]:
             return src["l"]
         pl = src
